@@ -8,12 +8,16 @@ import (
 	"os/exec"
 	"path/filepath"
 	"sort"
+	"strconv"
 	"strings"
 	"testing"
 
+	"github.com/brutella/hc"
+	"github.com/brutella/hc/accessory"
 	"github.com/brutella/hc/db"
 	"github.com/brutella/hc/util"
 	"pgregory.net/rapid"
+	"verifharness/fixture"
 	"verifharness/stats"
 )
 
@@ -22,7 +26,9 @@ import (
 // os.Exit at the VERIF_CRASH_AT-th crash point (what a kill leaves behind).
 
 func TestMain(m *testing.M) {
-	if op := os.Getenv("VERIF_CHILD_OP"); op != "" {
+	if op := os.Getenv("VERIF_CHILD_OP"); op == "transport" {
+		os.Exit(childTransport())
+	} else if op != "" {
 		os.Exit(child(op))
 	}
 	code := m.Run()
@@ -53,6 +59,26 @@ func child(op string) int {
 	default:
 		return 5
 	}
+	return 0
+}
+
+// childTransport creates (not starts) a transport on the directory: this loads and rewrites the stored configuration.
+func childTransport() int {
+	fixture.Quiet()
+	dir := os.Getenv("VERIF_CHILD_DIR")
+	variant, _ := strconv.Atoi(os.Getenv("VERIF_CHILD_VARIANT"))
+	bridge := accessory.NewBridge(accessory.Info{Name: "C19 transport"})
+	var rest []*accessory.Accessory
+	rest = append(rest, accessory.NewSwitch(accessory.Info{Name: "switch"}).Accessory)
+	for i := 0; i < variant; i++ {
+		rest = append(rest, accessory.NewOutlet(accessory.Info{Name: fmt.Sprintf("outlet %d", i)}).Accessory)
+	}
+	t, err := hc.NewIPTransport(hc.Config{StoragePath: dir, Pin: "03145154"}, bridge.Accessory, rest...)
+	if err != nil {
+		return 4
+	}
+	txt := t.VerifTxtRecords()
+	ioutil.WriteFile(os.Getenv("VERIF_CHILD_OUT"), []byte(txt["id"]+" "+txt["c#"]+" "+txt["sf"]), 0644)
 	return 0
 }
 
@@ -246,6 +272,20 @@ func explore(c crashCase, scratch string) (points int, leftovers int, err error)
 		if _, err := db.NewDatabaseWithStorage(fresh).Entities(); err != nil {
 			return points, leftovers, fmt.Errorf("crash at point %s: the pairing database no longer loads: %v", point, err)
 		}
+		// the store keeps working like a map after the restart: later writes (shorter than what the
+		// interrupted write carried) are read back exactly
+		for _, fk := range []string{"follow-up", storageKey} {
+			short := []byte("s")
+			if fk == storageKey && c.Op == "save-entity" {
+				short = []byte(`{"Name":"x","PublicKey":"AQ==","PrivateKey":null}`)
+			}
+			if err := fresh.Set(fk, short); err != nil {
+				return points, leftovers, fmt.Errorf("crash at point %s: a later Set(%q) fails: %v", point, fk, err)
+			}
+			if got, err := fresh.Get(fk); err != nil || !bytes.Equal(got, short) {
+				return points, leftovers, fmt.Errorf("crash at point %s: after the restart Set(%q, %d bytes) reads back %d bytes %q", point, fk, len(short), len(got), trunc(got))
+			}
+		}
 	}
 	return points, leftovers, nil
 }
@@ -351,4 +391,148 @@ func TestC19Regress(t *testing.T) {
 			t.Errorf("%s key=%q: %v", c.Op, c.Key, err)
 		}
 	}
+}
+
+// ---- crash during the configuration rewrite of a (re)started transport ----
+
+func runTransportChild(dir string, variant int, crashAt int, countFile, outFile string) (int, error) {
+	cmd := exec.Command(os.Args[0], "-test.run", "^$")
+	cmd.Env = append(os.Environ(), "VERIF_CHILD_OP=transport", "VERIF_CHILD_DIR="+dir, fmt.Sprintf("VERIF_CHILD_VARIANT=%d", variant),
+		"VERIF_CRASH_COUNT="+countFile, fmt.Sprintf("VERIF_CRASH_AT=%d", crashAt), "VERIF_CHILD_OUT="+outFile, "VERIF_STATS=")
+	out, err := cmd.CombinedOutput()
+	if err == nil {
+		return 0, nil
+	}
+	if ee, ok := err.(*exec.ExitError); ok {
+		return ee.ExitCode(), nil
+	}
+	return -1, fmt.Errorf("child: %v: %s", err, out)
+}
+
+func readReport(f string) (id string, cnum int, sf string) {
+	b, _ := ioutil.ReadFile(f)
+	parts := strings.Fields(string(b))
+	if len(parts) == 3 {
+		id = parts[0]
+		cnum, _ = strconv.Atoi(parts[1])
+		sf = parts[2]
+	}
+	return
+}
+
+func entitySnapshot(dir string) string {
+	var parts []string
+	fis, _ := ioutil.ReadDir(dir)
+	for _, fi := range fis {
+		if strings.HasSuffix(fi.Name(), ".entity") {
+			b, _ := ioutil.ReadFile(filepath.Join(dir, fi.Name()))
+			parts = append(parts, fi.Name()+"="+string(b))
+		}
+	}
+	sort.Strings(parts)
+	return strings.Join(parts, "|")
+}
+
+// exploreTransport: run 1 (variant a) completes; run 2 (variant b) is killed at every crash point; run 3 (variant b) completes.
+func exploreTransport(a, b, prePairings int, scratch string) (points int, err error) {
+	pre := filepath.Join(scratch, "pre")
+	work := filepath.Join(scratch, "work")
+	countFile := filepath.Join(scratch, "count.txt")
+	outFile := filepath.Join(scratch, "report.txt")
+	os.RemoveAll(pre)
+	os.MkdirAll(pre, 0755)
+	if rc, e := runTransportChild(pre, a, 0, countFile, outFile); e != nil || rc != 0 {
+		return 0, fmt.Errorf("INFRA: first run failed rc=%d %v", rc, e)
+	}
+	id0, c0, _ := readReport(outFile)
+	if id0 == "" || c0 < 1 {
+		return 0, fmt.Errorf("INFRA: first run reported id=%q c#=%d", id0, c0)
+	}
+	d, _ := db.NewDatabase(pre)
+	for i := 0; i < prePairings; i++ {
+		d.SaveEntity(db.NewEntity(fmt.Sprintf("controller-%d", i), bytes.Repeat([]byte{byte(i + 1)}, 32), nil))
+	}
+	ents0 := entitySnapshot(pre)
+	os.RemoveAll(work)
+	copyDir(pre, work)
+	os.Remove(countFile)
+	if rc, e := runTransportChild(work, b, 0, countFile, outFile); e != nil || rc != 0 {
+		return 0, fmt.Errorf("INFRA: counting run failed rc=%d %v", rc, e)
+	}
+	cb, _ := ioutil.ReadFile(countFile)
+	if len(bytes.TrimSpace(cb)) > 0 {
+		points = len(strings.Split(strings.TrimSpace(string(cb)), "\n"))
+	}
+	for k := 1; k <= points; k++ {
+		os.RemoveAll(work)
+		copyDir(pre, work)
+		os.Remove(countFile)
+		rc, e := runTransportChild(work, b, k, countFile, outFile)
+		if e != nil || rc != 77 {
+			return points, fmt.Errorf("INFRA: child did not stop at crash point %d (rc=%d, %v)", k, rc, e)
+		}
+		pb, _ := ioutil.ReadFile(countFile)
+		lines := strings.Split(strings.TrimSpace(string(pb)), "\n")
+		point := lines[len(lines)-1]
+		if got := entitySnapshot(work); got != ents0 {
+			return points, fmt.Errorf("start killed at crash point %s: the stored entities (key pair, pairings) changed", point)
+		}
+		os.Remove(outFile)
+		if rc, e := runTransportChild(work, b, 0, countFile, outFile); e != nil || rc != 0 {
+			return points, fmt.Errorf("start killed at crash point %s: the next start fails (rc=%d %v)", point, rc, e)
+		}
+		id, c, sf := readReport(outFile)
+		if id != id0 {
+			return points, fmt.Errorf("start killed at crash point %s: the next start advertises id %q, it was %q", point, id, id0)
+		}
+		if got := entitySnapshot(work); got != ents0 {
+			return points, fmt.Errorf("start killed at crash point %s: after the next start the stored entities changed", point)
+		}
+		wantSF := "1"
+		if prePairings > 0 {
+			wantSF = "0"
+		}
+		if sf != wantSF {
+			return points, fmt.Errorf("start killed at crash point %s: the next start advertises sf=%s with %d pairings", point, sf, prePairings)
+		}
+		switch {
+		case a != b && c <= c0:
+			return points, fmt.Errorf("start with a changed accessory set killed at crash point %s: the next start advertises c#=%d, the last completed run advertised %d for the old structure", point, c, c0)
+		case a == b && c != c0:
+			return points, fmt.Errorf("start with an unchanged accessory set killed at crash point %s: the next start advertises c#=%d, it was %d", point, c, c0)
+		}
+	}
+	return points, nil
+}
+
+func TestC19Transport(t *testing.T) {
+	rapid.Check(t, func(t *rapid.T) {
+		a := rapid.IntRange(0, 3).Draw(t, "variantA")
+		b := rapid.IntRange(0, 3).Draw(t, "variantB")
+		pre := rapid.IntRange(0, 2).Draw(t, "prePairings")
+		scratch := scratchDir()
+		defer os.RemoveAll(scratch)
+		points, err := exploreTransport(a, b, pre, scratch)
+		if err != nil && strings.HasPrefix(err.Error(), "INFRA") {
+			fmt.Println("VERIF-INCONCLUSIVE:", err)
+			t.Fatalf("%v", err)
+		}
+		if points == 0 {
+			fmt.Println("VERIF-INCONCLUSIVE: a transport start passed no crash point (hooks missing?)")
+			t.Fatalf("no crash points")
+		}
+		cls := []string{"op:transport-start", fmt.Sprintf("crash-points=%d", points)}
+		if a != b {
+			cls = append(cls, "transport:structure-changed")
+		} else {
+			cls = append(cls, "transport:same-structure")
+		}
+		stats.Count("crash_points_explored", points)
+		stats.Case(stats.Hash("transport", a, b, pre), a != b, cls, func() interface{} {
+			return map[string]interface{}{"op": "NewIPTransport on existing storage", "variant_of_last_completed_run": a, "variant_of_killed_run": b, "stored_pairings": pre, "crash_points": points}
+		})
+		if err != nil {
+			t.Fatalf("variants %d -> %d, %d pairings: %v", a, b, pre, err)
+		}
+	})
 }
